@@ -192,6 +192,10 @@ func (self *visitorUserNode) OnBool(v bool) error {
 	if self.globalFieldDesc == nil && top.typ == arrStkType {
 		fieldDesc = top.state.fieldDesc
 	}
+	if fieldDesc == nil {
+		// a scalar where the descriptor expects no value (JSON root, object-valued position)
+		return newError(meta.ErrDismatchType, "json scalar does not match the descriptor", nil)
+	}
 
 	// packed list no need to write tag
 	if !fieldDesc.Type().IsList() {
@@ -221,6 +225,10 @@ func (self *visitorUserNode) OnString(v string) error {
 	fieldDesc := self.globalFieldDesc
 	if fieldDesc == nil && top != nil && top.Type().IsList() {
 		fieldDesc = top
+	}
+	if fieldDesc == nil {
+		// a string where the descriptor expects no value (JSON root, object-valued position)
+		return newError(meta.ErrDismatchType, "json string does not match the descriptor", nil)
 	}
 
 	if err = self.p.AppendTagByKind(fieldDesc.Number(), fieldDesc.Kind()); err != nil {
@@ -261,6 +269,10 @@ func (self *visitorUserNode) OnInt64(v int64, n json.Number) error {
 	// case PackedList(List<int32/int64/...), get fieldDescriptor from Stack
 	if self.globalFieldDesc == nil && top.typ == arrStkType {
 		fieldDesc = top.state.fieldDesc
+	}
+	if fieldDesc == nil {
+		// a scalar where the descriptor expects no value (JSON root, object-valued position)
+		return newError(meta.ErrDismatchType, "json scalar does not match the descriptor", nil)
 	}
 
 	// packed list no need to write tag
@@ -356,6 +368,10 @@ func (self *visitorUserNode) OnFloat64(v float64, n json.Number) error {
 
 	if self.globalFieldDesc == nil && top.typ == arrStkType {
 		fieldDesc = top.state.fieldDesc
+	}
+	if fieldDesc == nil {
+		// a scalar where the descriptor expects no value (JSON root, object-valued position)
+		return newError(meta.ErrDismatchType, "json scalar does not match the descriptor", nil)
 	}
 
 	// packed list no need to write tag
